@@ -118,7 +118,7 @@ type resumeObs struct {
 
 // scriptedResume sends a hand-built resumption request, optionally keys its stream, sends one
 // application message and reads the server's answer.
-func scriptedResume(sid string, want bool, keyMode string, key []byte, fromAddr string) resumeObs {
+func scriptedResume(own *security.SessionCache, sid string, want bool, keyMode string, key []byte, fromAddr string) resumeObs {
 	var ob resumeObs
 	ca, cb := bufpipe.Pair(fromAddr, "10.0.0.2:9618")
 	ctx, cancel := context.WithTimeout(context.Background(), 600*time.Millisecond)
@@ -134,6 +134,7 @@ func scriptedResume(sid string, want bool, keyMode string, key []byte, fromAddr 
 	go func() {
 		defer wg.Done()
 		sc := *srvConf(true)
+		sc.SessionCache = own
 		a := security.NewAuthenticator(&sc, sst)
 		sneg, serr = a.ServerHandshake(ctx)
 		if serr != nil {
@@ -221,7 +222,7 @@ func mutateSid(sid string, how string) string {
 }
 
 func runResume(c *Ctx) error {
-	c.Res.Rule = "histories over establish(keyed/keyless) / honest resume / expire (virtual time: entry re-stored with a past expiry) / renew / invalidate / gc on a real server cache, with scripted resumption requests: right id + right key, right id + wrong key, right id + no key, unknown id, id differing by one character, truncated id, with and without ResumeResponse, from another address; and byte-for-byte replays (whole, request only, truncated) of either direction of a recorded resumed connection into a fresh connection; distinct by history; non-trivial = the request differs from the legitimate one or the history has ≥2 ops"
+	c.Res.Rule = "histories over establish(keyed/keyless) / honest resume / expire (virtual time: entry re-stored with a past expiry) / renew / invalidate / gc on a real server cache (a third of them against a server with its own isolated SessionCache plus the global fallback, with ostore/oinvalidate on the own cache), with scripted resumption requests: right id + right key, right id + wrong key, right id + no key, unknown id, id differing by one character, truncated id, with and without ResumeResponse, from another address; and byte-for-byte replays (whole, request only, truncated) of either direction of a recorded resumed connection into a fresh connection; distinct by history; non-trivial = the request differs from the legitimate one or the history has ≥2 ops"
 	var cases []Case
 	n := c.Pick(150, 2500)
 	user := ""
@@ -252,21 +253,53 @@ func runResume(c *Ctx) error {
 			c.Res.Notes = append(c.Res.Notes, "resume: keyed expectation not met")
 		}
 		alive := true
+		// a third of the histories run against a server configured with its own, isolated cache
+		// (SecurityConfig.SessionCache): handshake sessions still live in the global cache and are
+		// reached through the fallback; `ostore` registers the session in the own cache as well.
+		var own *security.SessionCache
+		aliveOwn := false
+		if c.Rng.Intn(3) == 0 {
+			own = security.NewSessionCache()
+			c.Count("server:isolated-cache")
+		}
 		steps := 1 + c.Rng.Intn(5)
+		if own != nil {
+			steps += 2
+		}
 		nontrivial := steps >= 2
 		for s := 0; s < steps; s++ {
-			switch c.Rng.Intn(9) {
+			sel := c.Rng.Intn(9)
+			if own != nil && c.Rng.Intn(4) == 0 {
+				sel = 9 + c.Rng.Intn(2)
+			}
+			switch sel {
+			case 9:
+				stored := false
+				for _, e := range security.GetSessionCache().Snapshot() {
+					if e.ID() == sid && !e.IsExpired() {
+						own.Store(security.NewSessionEntry(e.ID(), e.Addr(), e.KeyInfo(), e.Policy(), time.Now().Add(3600*time.Second), e.Lease(), e.Tag()))
+						stored = true
+					}
+				}
+				if stored {
+					log(fmt.Sprintf("ostore %s key=%s crypto=%s user=%s auth=1 exp=4600 lease=1800", sid, ks, cr, strOrTilde(user)), "ok")
+					aliveOwn = true
+				}
+			case 10:
+				own.Invalidate(sid)
+				log("oinvalidate "+sid, "ok")
+				aliveOwn = false
 			case 0:
 				expireEntry(security.GetSessionCache(), sid)
 				log("sexpire "+sid, "ok")
 				alive = false
 			case 1:
-				for _, e := range security.GetSessionCache().Snapshot() {
-					if e.ID() == sid {
-						e.RenewLease()
-					}
+				// the library renews a lease only on an entry a non-expired lookup just returned
+				// (handleSessionResumption, resumeSession); the harness does the same
+				if e, ok := security.GetSessionCache().LookupNonExpired(sid); ok {
+					e.RenewLease()
+					log("srenew "+sid, "ok")
 				}
-				log("srenew "+sid, "ok")
 			case 2:
 				security.InvalidateSession(sid)
 				log("sinvalidate "+sid, "ok")
@@ -280,7 +313,7 @@ func runResume(c *Ctx) error {
 				keyMode := pick(c, []string{"right", "right", "wrong", "none"})
 				from := pick(c, []string{"10.0.0.1:1111", "10.9.9.9:4242"})
 				rsid := mutateSid(sid, how)
-				ob := scriptedResume(rsid, want, keyMode, key, from)
+				ob := scriptedResume(own, rsid, want, keyMode, key, from)
 				var r string
 				if ob.ok {
 					r = fmt.Sprintf("ok reply=%s user=%s auth=%s enc=%s", ob.reply, strOrTilde(ob.user), b01(ob.auth), b01(ob.enc))
@@ -303,7 +336,7 @@ func runResume(c *Ctx) error {
 				if ob.ok && !ob.enc {
 					viol("resumed-plaintext", "a resumed connection is not protected by the session key", "stream keyed before any application byte", r)
 				}
-				if ob.ok && (how != "right" || !alive) {
+				if ob.ok && (how != "right" || !(alive || aliveOwn)) {
 					viol("dead-or-unknown-resumed", "an expired / invalidated / unknown session id was resumed", "refused", r)
 				}
 				if !ob.ok && want && ob.reply != "sidNotFound" {
@@ -315,7 +348,7 @@ func runResume(c *Ctx) error {
 				if ob.ok && ob.leak {
 					viol("answer-in-clear", "data sent on a resumed connection travelled in clear", "sealed", "cleartext on the wire")
 				}
-				if ob.ok && how == "right" && alive && (ob.user != user || !ob.auth) {
+				if ob.ok && how == "right" && (alive || aliveOwn) && (ob.user != user || !ob.auth) {
 					viol("identity-lost", "resumption did not restore the identity / authentication status of the original handshake", user+"/true", fmt.Sprintf("%s/%v", ob.user, ob.auth))
 				}
 				if ob.ok {
@@ -325,7 +358,9 @@ func runResume(c *Ctx) error {
 		}
 		// honest resumption through the real client, when the session should still be usable
 		if alive && keyed && c.Rng.Intn(2) == 0 {
-			p2 := realPair(cliConf(ccache, ""), srvConf(true), "10.0.0.1:1111")
+			sc2 := srvConf(true)
+			sc2.SessionCache = own
+			p2 := realPair(cliConf(ccache, ""), sc2, "10.0.0.1:1111")
 			okx := p2.cerr == nil && p2.serr == nil && p2.resumed
 			if okx {
 				if !p2.exchange() {
